@@ -3,7 +3,8 @@ from props.apu_common import *
 
 ID = 'C19'
 PROP_FILE = 'Properties/C19.v'
-RULE = ('random schedules of length writes (NRx1), DAC on/off (NRx2/NR30), NRx4 writes with/without trigger and '
+RULE = ('channel-1 triggers with every class of sweep register (period, direction, shift) at frequencies around the overflow '
+        'boundary f + (f >> shift) = 2048, NR52 read right after the trigger; random schedules of length writes (NRx1), DAC on/off (NRx2/NR30), NRx4 writes with/without trigger and '
         'length enable, NR10 sweep writes, power toggles, at every frame-sequencer phase: the gaps between operations '
         'are drawn from {1..8, 2047, 2048, 2049, 4095, 4096, 4097, 16384, random} machine cycles and some cases start '
         'from a sample-clock position just before the once-per-second wrap (hook) or after a power cycle at an odd '
@@ -43,7 +44,7 @@ def schedule(rng, nops):
             v = rng.choice([0x80, 0xC0, 0x40, 0x00, 0xC7, 0x87, 0x47]) | (rng.randrange(8) if rng.random() < 0.3 else 0)
             lines.append(w(TRIG_REG[ch], v))
         elif r < 0.64:
-            lines.append(w(NR10, rng.choice([0x11, 0x19, 0x08, 0x00, 0x17, 0x71, 0x7F, rng.randrange(128)])))
+            lines.append(w(NR10, rng.choice([0x11, 0x19, 0x08, 0x00, 0x17, 0x71, 0x7F, 0x12, 0x21, rng.randrange(128)])))
         elif r < 0.68:
             lines.append(w(rng.choice([NR13, NR23, NR33]), rng.randrange(256)))
         elif r < 0.73:
@@ -73,9 +74,34 @@ def directed(ch, t, phase_odd, pre_enabled):
     return lines
 
 
+def sweep_trigger(nr10, f, dac_on, run):
+    """channel 1 triggered with sweep register nr10 and frequency f; NR52 after the trigger and for run cycles"""
+    return [w(NR12, 0xF0 if dac_on else 0x00), w(NR10, nr10), w(NR13, f & 0xFF), w(NR14, 0x80 | (f >> 8)),
+            'apu.r 0xFF26', cyc(run), 'apu.st']
+
+
+def sweep_overflows(nr10, f):
+    shift, negate = nr10 & 7, nr10 & 8
+    return shift != 0 and not negate and f + (f >> shift) > 2047
+
+
 def generate(rng, tier):
     cases = []
     nd = 0
+    # channel 1: the frequency calculation a trigger performs when the sweep shift is non-zero
+    nsw = 0
+    for nr10 in ([0x11, 0x13, 0x17, 0x71, 0x01, 0x19, 0x77, 0x10] if tier == 'quick' else
+                 [p << 4 | n << 3 | sh for p in (0, 1, 7) for n in (0, 1) for sh in range(8)]):
+        shift = nr10 & 7
+        # frequencies around the overflow boundary f + (f >> shift) = 2048 and some others
+        fb = next((f for f in range(2048) if shift and f + (f >> shift) > 2047), 2047)
+        fs = sorted(set([fb - 1, fb, 0x7FF, 0x400, 0x100] + [rng.randrange(2048)]))
+        for f in fs:
+            if f < 0:
+                continue
+            cases.append(('w%02X_%03X' % (nr10, f), sweep_trigger(nr10, f, True, 9000 if (nr10 >> 4) <= 1 else 200)))
+            nsw += 1
+    cases.append(('w11_7FF_nodac', sweep_trigger(0x11, 0x7FF, False, 100)))
     for ch in (1, 2, 3, 4):
         full = 256 if ch == 3 else 64
         ts = [0, 1, full - 2, full - 1] + ([rng.randrange(full)] if tier == 'quick' else list(range(2, full - 2, 7)))
@@ -86,13 +112,13 @@ def generate(rng, tier):
                 for pre in (0, 1):
                     cases.append(('d%d_%d_%d_%d' % (ch, t, odd, pre), directed(ch, t, odd, pre)))
                     nd += 1
-    nr = 100 if tier == 'quick' else 1500
+    nr = 55 if tier == 'quick' else 1500
     for k in range(nr):
         cases.append(('r%d' % k, schedule(rng, rng.randrange(8, 40))))
     info = dict(exhaustive=False,
-                input_distribution=dict(directed_expiry_cases=nd, random_schedules=nr,
+                input_distribution=dict(directed_expiry_cases=nd, sweep_trigger_cases=nsw, random_schedules=nr,
                                         ops_total=sum(len(c[1]) for c in cases)),
-                samples=[dict(case=cases[nd][0], script=cases[nd][1][:14] + ['...'])])
+                samples=[dict(case=cases[nsw + 1 + nd][0], script=cases[nsw + 1 + nd][1][:14] + ['...'])])
     return cases, info
 
 
@@ -122,6 +148,19 @@ def extra(check, impl_cases, model_cases, cases):
     half; length clocks are 4096 machine cycles apart."""
     out = []
     for cid, lines in cases:
+        if cid.startswith('w') and cid.count('_') == 1:
+            impl = impl_cases.get(cid)
+            if not impl:
+                continue
+            nr10, f = int(cid[1:3], 16), int(cid[4:], 16)
+            want = 0 if sweep_overflows(nr10, f) else 1
+            got = int(impl[0]) & 1
+            if got != want:
+                out.append(dict(case=cid, script=lines, impl=impl, model=model_cases.get(cid),
+                                verdict='implementation violates the statement directly: channel 1 triggered with '
+                                        'NR10=%02X and f=%03X (sweep calculation %s): NR52 bit 0 = %d, documented %d'
+                                        % (nr10, f, 'overflows' if want == 0 else 'does not overflow', got, want)))
+            continue
         if not cid.startswith('d'):
             continue
         impl = impl_cases.get(cid)
